@@ -315,3 +315,34 @@ Example C08_q_then_close_nonvacuous :
 Proof. exact demo_q_close. Qed.
 Print Assumptions C08_exchange_q_then_close.
 Print Assumptions C08_set_relation_q_then_close.
+
+(** Builder.NewBatchQ followed by Close is Builder.NewBatch: no event at the call, locked until
+    the Close; afterwards tables, index, pool and graph of the plain NewBatch, unlocked, the same
+    abstract store (each new entity added with the builder's mask and target), cache invariant.
+    Events of the Close against the events of the plain call: none on either side without a
+    listener; with one, compared on the example below and by the correspondence run. *)
+From Arche Require Import Proofs.BatchCreate Proofs.IlenInv Proofs.BatchNewQClose.
+Theorem C08_new_batch_q_then_close : forall w A count b target w2 h evs2,
+  R w A -> cache_ok w -> ilen w -> ids_reg A (b_ids b) -> b_vals b = None ->
+  op_new_batch_q w count b target = (w2, Ok (VNat h), evs2) ->
+  exists w' es evs' w3 evs3,
+    op_new_batch w count b target = (w', Ok (VEnts es), evs') /\
+    evs2 = [] /\ is_locked w2 = true /\ step w2 (OQClose h) = (w3, Ok VUnit, evs3) /\
+    Z.of_nat (length es) = count /\ NoDup es /\ (forall e, e ∈ es -> e ∉ as_issued A) /\
+    R w3 (a_add_all A es (mkA (new_mask (b_ids b)) (default ezero target) [])) /\ cache_ok w3 /\
+    w_tables w3 = w_tables w' /\ w_index w3 = w_index w' /\ w_pool w3 = w_pool w' /\ w_nodes w3 = w_nodes w' /\
+    is_locked w3 = false /\
+    (w_listener w' = None -> evs3 = [] /\ evs' = []).
+Proof. exact new_batch_q_then_close. Qed.
+Example C08_new_batch_q_then_close_nonvacuous :
+  let w := run demo_bc_world [OSetListener (Some (LCallback (mkL 63 None)))] in
+  let rq := step w (OBBatchQ (mkB [0; 1] None (Some 1)) 3%Z (Some (mkE 1 0))) in
+  let rc := step (fst (fst rq)) (OQClose 0) in
+  let rp := step w (OBBatch (mkB [0; 1] None (Some 1)) 3%Z (Some (mkE 1 0))) in
+  snd (fst rq) = Ok (VNat 0) /\ snd rq = [] /\ snd (fst rc) = Ok VUnit /\
+  length (snd rc) = 3 /\ length (snd rp) = 3 /\ map (fun e => (ev_ent e, ev_added e, ev_removed e, ev_newrel e, ev_types e, ev_to e)) (snd rc) = map (fun e => (ev_ent e, ev_added e, ev_removed e, ev_newrel e, ev_types e, ev_to e)) (snd rp) /\
+  w_tables (fst (fst rc)) = w_tables (fst (fst rp)) /\ w_index (fst (fst rc)) = w_index (fst (fst rp)) /\
+  w_pool (fst (fst rc)) = w_pool (fst (fst rp)) /\
+  is_locked (fst (fst rq)) = true /\ is_locked (fst (fst rc)) = false.
+Proof. exact demo_new_q_close. Qed.
+Print Assumptions C08_new_batch_q_then_close.
